@@ -292,6 +292,10 @@ var mustErrorClasses = []string{
 	"other-domain/previous-fork-version", "other-domain/next-fork-version", "other-domain/other-domain-type", "other-domain/other-epoch", "other-domain/mixed",
 }
 
+// mustErrorPick: the PRNG draws the must-error class from this list (other-domain-type three times:
+// 12 object types x 9 other domain types is the largest input space among the classes).
+var mustErrorPick = append(append([]string{}, mustErrorClasses...), "other-domain/other-domain-type", "other-domain/other-domain-type")
+
 var universalOnlyClasses = []string{
 	"unsigned-content-varies", "content-swapped-signature-over-common-content", "duplicate-label-conflict", "repeated-share-above-threshold",
 	// two independent corruptions of one validator's partials can cancel out algebraically (e.g. t=2:
@@ -431,12 +435,13 @@ func TestCheck(t *testing.T) {
 
 	r.Set("kinds", len(kinds))
 	var validCursor [16]atomic.Uint64 // per n: round-robin over threshold subsets for valid calls
+	dtCursors := make([]atomic.Uint64, len(kinds))
 
 	n := r.N(12000, 100000)
 	r.Cases(n, 0, func(c *kit.Case) {
 		k := kinds[c.Idx%len(kinds)]
 		env := clusters[(c.Idx/len(kinds))%len(clusters)]
-		runCase(ctx, c, ch, mon, env, k, &validCursor[env.n])
+		runCase(ctx, c, ch, mon, env, k, &validCursor[env.n], &dtCursors[c.Idx%len(kinds)])
 	})
 
 	// every threshold subset of the small clusters used by a valid call?
@@ -514,6 +519,9 @@ type builder struct {
 	ch  *chain
 	env *clusterEnv
 	rng *rand.Rand
+	// dtCursor: per object kind, round-robin over the other domain types for the pure
+	// other-domain-type class, so that every (kind, other type) pair is met several times per run.
+	dtCursor *atomic.Uint64
 }
 
 // partial signs obj with key and labels it; genuine tells whether key is share `label` of validator vi.
@@ -562,6 +570,20 @@ func (b *builder) partialUnder(obj core.SignedData, key tbls.PrivateKey, label i
 // no such domain exists for this object), plus a short description.
 var otherDomainVariants = []string{"previous-fork-version", "next-fork-version", "other-domain-type", "other-epoch"}
 
+// siblingDomains: for each domain type, the types of the messages handled right next to it.
+var siblingDomains = map[string][]string{
+	domProposer:     {domRandao, domAttester},
+	domAttester:     {domProposer, domAggProof, domSelection},
+	domRandao:       {domProposer},
+	domExit:         {domAttester, domBuilder},
+	domBuilder:      {domExit, domProposer},
+	domSelection:    {domAggProof, domSyncSel},
+	domAggProof:     {domSelection, domAttester, domContribution},
+	domSyncComm:     {domSyncSel, domContribution, domAttester},
+	domSyncSel:      {domSelection, domSyncComm, domContribution},
+	domContribution: {domSyncSel, domAggProof, domSyncComm},
+}
+
 func (b *builder) otherDomain(in info, variant string, mayCancel bool) (domSpec, string, bool) {
 	ch, rng := b.ch, b.rng
 	own := ch.ownSpec(in.Domain, in.Epoch)
@@ -604,6 +626,11 @@ func (b *builder) otherDomain(in info, variant string, mayCancel bool) (domSpec,
 		}
 		ds := own
 		ds.Name = cand[rng.Intn(len(cand))]
+		if mayCancel && b.dtCursor != nil { // pure class: walk all other types
+			ds.Name = cand[int(b.dtCursor.Add(1))%len(cand)]
+		} else if sib := siblingDomains[in.Domain]; len(sib) > 0 && rng.Intn(2) == 0 {
+			ds.Name = sib[rng.Intn(len(sib))] // the domain types most easily confused with the own one
+		}
 
 		return ds, fmt.Sprintf("%s instead of %s (same fork version)", ds.Name, in.Domain), differs(ds)
 	case "other-epoch":
@@ -912,6 +939,9 @@ func (b *builder) plan(vi int, k kind, g *genCtx, class string, ids []int) (*val
 		p.note = fmt.Sprintf("%d of %d partials sign the object's own root under another domain: %s", len(positions), len(ids), why)
 		b.c.R.Count("other_domain_sets/"+variant, 1)
 		b.c.R.Seen("other_domain_variant_by_type", variant+" / "+baseIn.Type)
+		if variant == "other-domain-type" {
+			b.c.R.Seen("other_domain_type_pairs", baseIn.Type+": "+ds.Name+" instead of "+baseIn.Domain)
+		}
 		if wd, err := b.ch.domainOf(ds); err == nil && !mixed && baseIn.Domain == domAttester && len(baseIn.alt) > 0 {
 			// the decisive shape for a verifier that picks the domain by the wrong checkpoint
 			if sd, err := b.ch.domain(domAttester, baseIn.alt[0].epoch); err == nil && sd == wd && p.meta[0].Under != "" {
@@ -1035,10 +1065,10 @@ func isMustError(class string) bool {
 	return false
 }
 
-func runCase(ctx context.Context, c *kit.Case, ch *chain, mon *monitor, env *clusterEnv, k kind, cursor *atomic.Uint64) {
+func runCase(ctx context.Context, c *kit.Case, ch *chain, mon *monitor, env *clusterEnv, k kind, cursor, dtCursor *atomic.Uint64) {
 	r, rng := c.R, c.Rng
 	g := &genCtx{t: r.T(), rng: rng, spe: ch.spe, bounds: ch.bounds}
-	b := &builder{c: c, ch: ch, env: env, rng: rng}
+	b := &builder{c: c, ch: ch, env: env, rng: rng, dtCursor: dtCursor}
 
 	// which validators, which class
 	nv := 1
@@ -1050,7 +1080,7 @@ func runCase(ctx context.Context, c *kit.Case, ch *chain, mon *monitor, env *clu
 	switch x := rng.Intn(100); {
 	case x < 22:
 	case x < 78:
-		class = mustErrorClasses[rng.Intn(len(mustErrorClasses))]
+		class = mustErrorPick[rng.Intn(len(mustErrorPick))]
 	default:
 		class = universalOnlyClasses[rng.Intn(len(universalOnlyClasses))]
 	}
